@@ -8,6 +8,7 @@ import (
 	"fmt"
 	"hash/fnv"
 	"sort"
+	"strings"
 
 	"deps.dev/util/resolve"
 	"verif/sim/kernel"
@@ -54,6 +55,28 @@ func violate(r *Result, kind, key string, step int, format string, args ...any) 
 	r.Violations = append(r.Violations, Violation{Kind: kind, Key: key, Step: step, Detail: d})
 }
 
+// hang turns a deadlocked run into a violation when a caller's operation is
+// among the blocked: the operation does not return, where the same operation
+// on fresh objects returned a graph. Tasks whose current operation was aborted
+// by a fault are exempt (an aborted operation is not judged), and so are
+// goroutines the code under test started itself (a leaked goroutine is not a
+// caller waiting for an answer).
+func hang(res *Result, s *kernel.Sched, ncallers int, aborted func(task int) bool, what func(task int) string, key string) bool {
+	ids, labels := s.BlockedTasks()
+	for i, id := range ids {
+		if id >= ncallers || (aborted != nil && aborted(id)) {
+			continue
+		}
+		var all []string
+		for j, x := range ids {
+			all = append(all, fmt.Sprintf("task %d at %s", x, labels[j]))
+		}
+		violate(res, "hang", key, 0, "%s does not return: every live task is blocked inside the code under test and stayed so for 3 s of real time (%s); task %d is blocked at %s", what(id), strings.Join(all, "; "), id, labels[i])
+		return true
+	}
+	return false
+}
+
 func hashStrings(parts ...string) string {
 	h := fnv.New64a()
 	for _, p := range parts {
@@ -64,6 +87,12 @@ func hashStrings(parts ...string) string {
 }
 
 var errBudget = errors.New("simulation budget exceeded")
+
+// kernel note slots (readable after a run that deadlocked)
+const (
+	noteOp    = 0 // 1 + index of the operation the task is executing, 0: none
+	noteFired = 1 // the fault of that operation has fired
+)
 
 // errInjected is what a client call answers when the fault plan of the
 // running operation says so: a transient failure of the (simulated) network
@@ -159,6 +188,7 @@ func (c *simClient) enter(label string) error {
 	if c.fkind != nil && c.fkind[t] != faultNone && c.fcount[t] >= c.fat[t] && (c.fired[t] || c.flabel[t] == 0 || callKinds[c.flabel[t]] == label) {
 		first := !c.fired[t]
 		c.fired[t] = true
+		s.SetNote(t, noteFired, 1)
 		switch c.fkind[t] {
 		case faultCancel:
 			if first && c.cancels[t] != nil {
